@@ -166,6 +166,79 @@ public class Empty {
     private int n;
 }
 `},
+	{"Status", "enum-with-members", `package a;
+
+import q.B;
+
+public enum Status {
+    OPEN("o"), CLOSED("c");
+
+    private final String code;
+    private B x;
+
+    Status(String code) {
+        this.code = code;
+    }
+
+    public String getCode() {
+        x.go();
+        return code;
+    }
+
+    @Override
+    public String toString() {
+        return code;
+    }
+}
+`},
+	{"Marker", "annotation-type", `package a;
+
+import r.B;
+
+public @interface Marker {
+    String value() default "";
+    int CONST = 1;
+}
+`},
+	{"Point", "record", `package a;
+
+import s.T3;
+
+public record Point(int px, T3 x) {
+    public int norm() {
+        x.go();
+        return px;
+    }
+}
+`},
+	{"Outer", "nested-types", `package a;
+
+public class Outer {
+    private int depth;
+
+    public void top() {
+        helper();
+    }
+
+    private void helper() {
+    }
+
+    static class Inner {
+        private String innerField;
+
+        void innerMethod(String x) {
+            x.length();
+        }
+    }
+
+    enum Kind {
+        A, B;
+
+        void kindMethod() {
+        }
+    }
+}
+`},
 }
 
 type c07Op struct {
